@@ -24,7 +24,7 @@ ASSUMPTIONS = [
 REQUIRED = ['one_shot_fired', 'persistent_fired_3plus', 'interval_zero', 'equal_expiries', 'datetime_deadline', 'reset_live_timer',
             'unregister_live_timer', 'unregister_persistent_after_firing', 'idle_wait_bounded_by_timer', 'two_timers_alive', 'sleep_task_present',
             'unbounded_idle_without_timers', 'double_event_instances', 'virtual_time_calls', 'source_fire_seen',
-            'datetime_deadline_in_non_utc_zone', 'handler_consumed_time', 'clock_advances_between_readings']
+            'datetime_deadline_in_non_utc_zone', 'handler_consumed_time', 'clock_advances_between_readings', 'reset_with_new_interval', 'reset_to_zero_interval']
 REQUIRED_OBLIGATIONS = ['NOT_EARLY', 'ONE_SHOT_ONCE', 'ONE_SHOT_DETACHED', 'PERSISTENT_SPACING', 'NO_FIRE_AFTER_UNREGISTER', 'RESET_RESTARTS',
                         'NO_OVERSLEEP', 'PROMPT']
 WORKER_TIMEOUT = {'quick': 300, 'thorough': 1500}
@@ -77,6 +77,8 @@ def _run_case(case, clock):
     slack = 64 * clock.read_cost
     log = []            # ('FIRE', now, tid) | ('ACT', now, action) | ('ITER', now)
     timers = {}         # tid -> dict(obj, persist, interval, expiry (ghost), alive, unreg_at, fired[])
+    in_flight = {}      # tid of the scenario -> ghost records of the events fired by the timer and not yet delivered
+    alias = {}          # tid of the scenario -> ghost record in force (reset(new interval) opens a new record for the same Timer object)
     problems = []
     counts = dict.fromkeys(REQUIRED_OBLIGATIONS, 0)
     marks = set()
@@ -95,7 +97,9 @@ def _run_case(case, clock):
         def _on_tmr(self, tid):
             now = clock.now
             log.append(('FIRE', now, tid))
-            timers[tid]['fired'].append(now)
+            # (the record that was in force when the timer FIRED this event, not the one in force now)
+            q = in_flight.get(tid)
+            timers[q.pop(0) if q else alias.get(tid, tid)]['fired'].append(now)
 
         @handler('sleeper')
         def _on_sleeper(self, d):
@@ -170,14 +174,29 @@ def _run_case(case, clock):
             timers[tid] = {'obj': obj, 'persist': persist, 'interval': eff, 'expiry': exp, 'alive': True, 'unreg_at': None, 'fired': [],
                            'resets': [], 'created': now, 'alive_at_check': False}
         elif kind == 'reset':
-            t = timers.get(a[2])
+            t = timers.get(alias.get(a[2], a[2]))
             if t and t['alive'] and not t['obj'].unregister_pending and t['obj'].parent is not t['obj']:
                 marks.add('reset_live_timer')
-                t['obj'].reset()
-                t['expiry'] = now + t['interval']
-                t['resets'].append((now, len(log)))
+                if len(a) > 3:
+                    # reset(new interval): the countdown restarts with another interval (0 = due at once).  The ghost closes the
+                    # record of the old arming and opens one for the new (same Timer object)
+                    marks.add('reset_with_new_interval')
+                    if a[3] == 0:
+                        marks.add('reset_to_zero_interval')
+                    t['obj'].reset(a[3])
+                    t['alive'] = False
+                    t['resets'].append((now, len(log)))
+                    t['superseded'] = True
+                    nid = '%s+%d' % (a[2], sum(1 for k_ in timers if str(k_).startswith('%s+' % a[2])) + 1)
+                    timers[nid] = {'obj': t['obj'], 'persist': t['persist'], 'interval': a[3], 'expiry': now + a[3], 'alive': True, 'unreg_at': None,
+                                   'fired': [], 'resets': [], 'created': now, 'alive_at_check': False}
+                    alias[a[2]] = nid
+                else:
+                    t['obj'].reset()
+                    t['expiry'] = now + t['interval']
+                    t['resets'].append((now, len(log)))
         elif kind == 'unreg':
-            t = timers.get(a[2])
+            t = timers.get(alias.get(a[2], a[2]))
             if t and t['alive'] and t['obj'].parent is not t['obj']:
                 marks.add('unregister_live_timer')
                 if t['persist'] and t['fired']:
@@ -235,7 +254,10 @@ def _run_case(case, clock):
 
             def tf(event, *channels, _t=t, _of=of, **kwargs):
                 if getattr(event, 'name', None) == 'tmr':
-                    log.append(('SRC', clock.now, a[2]))
+                    cur_id = alias.get(a[2], a[2])
+                    _t = timers[cur_id]
+                    log.append(('SRC', clock.now, cur_id))
+                    in_flight.setdefault(a[2], []).append(cur_id)
                     marks.add('source_fire_seen')
                     if _t['persist']:
                         _t['expiry'] = clock.now + _t['interval']
@@ -288,7 +310,7 @@ def _run_case(case, clock):
             if fired:
                 marks.add('one_shot_fired')
                 counts['ONE_SHOT_DETACHED'] += 1
-                if t['obj'].parent is not t['obj'] and fired[0] < end + T0 - 0.5:
+                if t['obj'].parent is not t['obj'] and fired[0] < end + T0 - 0.5 and not t.get('superseded'):
                     problems.append(('ONE_SHOT_DETACHED', {'timer': tid, 'fired_at': fired[0] - T0, 'still_attached': True}))
         if t['unreg_at'] is not None:
             counts['NO_FIRE_AFTER_UNREGISTER'] += 1
@@ -314,6 +336,9 @@ def corpus():
                                                                               [0, N, 3, 2.5, False], [1.0, N, 4, ['dt', 0.2, 999999], False]]})
     cs.append({'name': 'reset', 'end': 8.0, 'actions': [[0, N, 1, 1.0, False], [0.5, R, 1], [0, N, 2, 1.0, True], [2.5, R, 2], [0, N, 3, 2.5, False], [3.0, R, 3],
                                                         [0, N, 4, 0.25, True], [0.6, R, 4], [4.0, U, 4]]})
+    cs.append({'name': 'reset-new-interval', 'end': 9.0, 'actions': [[0, N, 1, 5.0, False], [1.0, R, 1, 0], [0, N, 2, 8.0, True], [2.0, R, 2, 0.25], [3.2, R, 2, 1.0],
+                                                                      [0, N, 3, 0.25, False], [0.1, R, 3, 2.5], [0, N, 4, 2.5, False], [0.5, R, 4, 0.0], [4.0, N, 5, 1.0, False],
+                                                                      [4.5, R, 5, 0.1], [6.0, U, 2]]})
     cs.append({'name': 'unregister', 'end': 6.0, 'actions': [[0, N, 1, 1.0, False], [0.5, U, 1], [0, N, 2, 0.25, True], [1.1, U, 2], [0, N, 3, 2.5, True],
                                                              [1.0, N, 4, 0.1, False], [2.0, N, 5, 1, True], [3.0, U, 5]]})
     cs.append({'name': 'sleepers', 'end': 5.0, 'actions': [[0, 'sleeper', 0.35], [0, N, 1, 1.0, True], [0.2, N, 2, 0.1, False], [1.5, 'sleeper', 1.2],
@@ -350,6 +375,9 @@ def gen_case(rng):
         r = rng.random()
         if r < 0.3:
             acts.append([round(at + rng.uniform(0, end - at), 2), 'reset', tid])
+            if rng.random() < 0.4 and not isinstance(interval, list):
+                # reset to another interval; 0 (due at once) only for one-shot timers
+                acts[-1].append(rng.choice([0, 0, 0.1, 1, 2.5]) if not persist else rng.choice([0.1, 0.25, 1, 2.5]))
         if persist and interval == 0:
             # fires in every iteration without the virtual time advancing: only meaningful if it leaves at once
             acts.append([at, 'unreg', tid])
